@@ -6,6 +6,7 @@ Section Inv.
   Variable o : eopts.
   Variable NN : Prop.
   Hypothesis Hsig : o_sig o <> Profiles.
+  Hypothesis HNcap : NN -> le_cap o 0.
 
   Notation GI := (GI o NN).
   Notation GIR := (GIR o NN).
@@ -28,7 +29,7 @@ Section Inv.
   Lemma fire_all_G r ds st held : GI st (ds ++ held) -> GI (fire_all o r ds st) held.
   Proof.
     unfold fire_all. revert st. induction ds as [|d ds IH]; intros st H; cbn [fold_left]; [exact H|].
-    apply IH. apply fire_G. exact H.
+    apply IH. apply (fire_G o NN HNcap). exact H.
   Qed.
 
   Lemma export_G st f held : s_hung st = None -> GI st (snd f ++ held) -> GI (export o st f) held.
@@ -91,13 +92,13 @@ Section Inv.
       + intros id Hi. unfold c' in Hi. cbn in Hi. destruct Hi; [subst; exact Hlt|auto].
       + intros Hs. rewrite HLS. auto.
       + intros Hs. rewrite HLS. auto.
-      + intros HN. destruct (J HN) as (J1 & J2 & J3 & J4). rewrite dsum_cons in J1.
+      + intros HN. destruct (J HN) as (J1 & J2 & J3 & J4 & J5). rewrite dsum_cons in J1.
         pose proof (negf_nonneg d). pose proof (dsum_nonneg negf R negf_nonneg).
         assert (Hneg : negf d = 0) by lia.
         split; [rewrite E; lia|]. split; [|split; [exact J3|]].
         * intros id x n acc Hi. unfold c' in Hi. destruct Hi as [Hi|Hi]; [|eauto].
           inversion Hi; subst. unfold negf in Hneg. destruct (d_el x <? 0) eqn:Qn; [discriminate|]. now apply Z.ltb_ge in Qn.
-        * intros Hs. rewrite HLS. auto.
+        * split; [|exact J5]. intros Hs. rewrite HLS. auto.
     - apply Z.ltb_ge in E1. assert (k = 1) by lia. subst k. eapply GIR_equiv; [|exact G].
       intros g. rewrite E, dsum_cons. lia.
   Qed.
@@ -126,7 +127,7 @@ Section Inv.
         eapply GIR_equiv; [|exact G]. intros g. rewrite !dsum_refs. cbn [s_cur s_hung set_flushq].
         rewrite fdones_app, dsum_app. cbn [fdones flat_map snd app]. rewrite !dsum_cons, !dsum_nil. lia. }
     assert (Hfire : Inv6 (fire o ROk st d)).
-    { unfold Inv6. destruct (fire_frame o Hsig ROk st d) as (_ & _ & Fq & _). rewrite Fq. apply fire_G. exact G. }
+    { unfold Inv6. destruct (fire_frame o Hsig ROk st d) as (_ & _ & Fq & _). rewrite Fq. apply (fire_G o NN HNcap). exact G. }
     (* the generic step: after with_ref, any placement of k = length l references of d *)
     assert (Hplace : forall l st', l <> [] ->
               s_ref st' = s_ref (with_ref st d l) -> s_queue st' = s_queue st -> s_next st' = s_next st ->
